@@ -2,6 +2,7 @@ package c16
 
 import (
 	"bytes"
+	"compress/gzip"
 	"context"
 	"crypto/sha256"
 	"encoding/json"
@@ -151,9 +152,30 @@ func genLimit(t *rapid.T) int64 {
 // (rapid's samplers lean towards the first alternatives: the interesting
 // classes are listed first)
 func genBody(t *rapid.T, limit int64) BodySpec {
-	kind := rapid.SampledFrom([]string{"mixed", "mixed", "mixed", "periodic", "periodic", "random", "random", "zeros", "literal", "empty"}).Draw(t, "kind")
+	kind := rapid.SampledFrom([]string{"mixed", "mixed", "mixed", "periodic", "periodic", "random", "random", "zeros", "literal", "empty", "magic", "magic"}).Draw(t, "kind")
 	b := BodySpec{Kind: kind}
 	switch kind {
+	case "magic":
+		// an opaque body that looks like compressed data: the magic number of a coding alone, followed by noise, or
+		// a complete stream.  Sent without Content-Encoding it has to arrive untouched; sent with one it is a body
+		// like any other.
+		b.Kind = "literal"
+		head := rapid.SampledFrom([][]byte{{0x1f, 0x8b, 0x08}, {0x1f, 0x8b, 0x08, 0, 0, 0, 0, 0, 0, 0xff}, {0x1f, 0x8b}, {0x78, 0x9c}, {0x78, 0x01}, {0x78, 0xda},
+			{0x28, 0xb5, 0x2f, 0xfd}, {0xff, 0x06, 0x00, 0x00, 0x73, 0x4e, 0x61, 0x50, 0x70, 0x59}, {0x04, 0x22, 0x4d, 0x18}}).Draw(t, "magic")
+		tail := rapid.SliceOfN(rapid.Byte(), 0, 64).Draw(t, "magictail")
+		switch rapid.IntRange(0, 3).Draw(t, "magicform") {
+		case 0:
+			b.Lit = append([]byte{}, head...)
+		case 1:
+			b.Lit = append(append([]byte{}, head...), tail...)
+		default:
+			var buf bytes.Buffer
+			zw := gzip.NewWriter(&buf)
+			_, _ = zw.Write(tail)
+			_ = zw.Close()
+			b.Lit = buf.Bytes()
+		}
+		return b
 	case "empty":
 		return b
 	case "literal":
